@@ -56,6 +56,12 @@ func (e *StorageEngine) getInt(addr oid.Address) (*object.Object, error) {
 	return obj, err
 }
 
+// headerInterceptError marks an error returned by the caller's header interceptor passed to
+// [StorageEngine.ReadObject]: the caller aborts the whole operation, it is not a shard failure.
+type headerInterceptError struct{ error }
+
+func (e headerInterceptError) Unwrap() error { return e.error }
+
 func (e *StorageEngine) get(addr oid.Address, shardFunc func(s *shard.Shard, ignoreMetadata bool) error) error {
 	var (
 		hasDegraded   bool
@@ -76,7 +82,10 @@ func (e *StorageEngine) get(addr oid.Address, shardFunc func(s *shard.Shard, ign
 				shardWithMeta = sh
 				metaError = err
 			}
+			var hie headerInterceptError
 			switch {
+			case errors.As(err, &hie):
+				return hie.error // the caller's header interceptor aborted the operation: not a shard failure
 			case errors.Is(err, apistatus.ErrObjectNotFound):
 				continue // ignore, go to next shard
 			case errors.As(err, &siErr):
@@ -279,6 +288,15 @@ func (e *StorageEngine) ReadObject(_ context.Context, addr oid.Address, rng comm
 		n      int
 		stream io.ReadCloser
 	)
+
+	if orig := interceptHeaderBinaryFn; orig != nil {
+		interceptHeaderBinaryFn = func(b []byte) error {
+			if err := orig(b); err != nil {
+				return headerInterceptError{err}
+			}
+			return nil
+		}
+	}
 
 	return n, stream, e.get(addr, func(s *shard.Shard, ignoreMetadata bool) error {
 		var err error
